@@ -109,7 +109,9 @@ Step(ev) ==
                 ELSE IF ev.op = "delete" /\ ev.kind = "seg" /\ ev.res = "ok"
                   THEN [j \in DOMAIN segs \ {ev.id} |-> segs[j]]
                 ELSE segs
-     /\ man' = IF ev.op = "rename" /\ ev.res \in {"ok", "applied"} THEN Range(ev.segs) ELSE man
+     /\ man' = IF ev.op = "rename" /\ ev.res \in {"ok", "applied"} THEN Range(ev.segs)
+               ELSE IF ev.op = "put" /\ ev.kind = "man" /\ ev.res = "ok" /\ "segs" \in DOMAIN ev THEN Range(ev.segs)   \* written in place
+               ELSE man
      /\ segc' = IF ev.op = "put" /\ ev.kind = "seg" /\ ev.res = "ok" /\ "deltas" \in DOMAIN ev THEN Upd(segc, ev.id, SegContent(ev.deltas)) ELSE segc
      /\ cin' = IF ev.who = "C" /\ ev.op = "get" /\ ev.kind = "seg" /\ ev.res = "ok" THEN cin \cup {ev.id} ELSE cin
      /\ (ev.who = "C" /\ ev.op = "put" /\ ev.kind = "seg" /\ ev.res = "ok" /\ "deltas" \in DOMAIN ev /\ cin \subseteq DOMAIN segc /\ ~CompactOutputOk(SegContent(ev.deltas))
